@@ -138,6 +138,8 @@ def make_config(rng: random.Random):
         cfg["nodata"] = rng.choice([None, 0, -9999 if cfg["dtype"] == "int64" else 9999])
         if cfg["compression"].startswith("lerc"):
             cfg["compression"], cfg["comp_kw"] = "deflate", None  # LERC has no 64-bit integer mode
+    if cfg["compression"].startswith("lerc") and cfg["magnitude"] == "special" and cfg["dtype"].startswith("float"):
+        cfg["magnitude"] = "huge"  # the LERC codec itself decodes NaN as 0 (imagecodecs.lerc_decode(lerc_encode([nan])) == [0.]): not a configuration that can round-trip
     if cfg["dest"] == "s3" and cfg["spill_sz"] == 0:
         cfg["spill_sz"] = 1 << 10  # for the S3 writer spill_sz=0 means "assemble in memory, do not upload" (returns the chunk)
     return cfg
@@ -324,13 +326,19 @@ def run_config(mon: Monitor, cfg, workdir: str) -> None:
                     ok_nn = False
                     break
                 four = np.stack([prev[:, 0::2, 0::2], prev[:, 0::2, 1::2], prev[:, 1::2, 0::2], prev[:, 1::2, 1::2]])
+                exact = None
                 if cur.dtype.kind in "iu" and cur.dtype.itemsize == 8:
-                    # overviews are made by GDAL's warper, which carries 64-bit integers as doubles: beyond 2^53 the copy is the nearest double, not the exact value
-                    # (the statement promises exact pixels at full resolution only; what is judged here is that each overview pixel comes from its own 2x2 parent block)
-                    four, cur = four.astype("float64"), cur.astype("float64")
+                    # overviews are made by GDAL's warper, which carries 64-bit integers as doubles: beyond 2^53 the copy is the nearest double (and saturates at the ends of
+                    # the range), not the exact value.  The statement promises exact pixels at full resolution only; what is judged here is that each overview pixel comes
+                    # from its own 2x2 parent block, so blocks holding such values are compared as doubles, and left alone where even that is ambiguous (|v| >= 2^63)
+                    lim = 2.0 ** 63
+                    f4 = four.astype("float64")
+                    exact = (np.abs(f4) < lim).all(axis=0)
+                    four, cur = f4, cur.astype("float64")
                 eq = (four == cur[None]) | (np.isnan(four) & np.isnan(cur[None]) if cur.dtype.kind == "f" else False)
                 vy, vx = vy // 2, vx // 2  # judged where the whole 2x2 parent block is real data (padding values of overviews are not specified)
-                ok_nn = ok_nn and bool(eq.any(axis=0)[:, :vy, :vx].all())
+                hit = eq.any(axis=0) if exact is None else (eq.any(axis=0) | ~exact)
+                ok_nn = ok_nn and bool(hit[:, :vy, :vx].all())
                 prev = cur
         mon.check(ok_pages and ok_tiles and ok_half, "tiff-structure", lambda: wit({"pages": len(pages), "expected_levels": levels, "shapes": shapes, "expected_padded": padded, "tiles_ok": ok_tiles,
                   "tiles": [(p.tilelength, p.tilewidth) for p in pages], "expected_tiles": tiles}), key="tiff-structure", cls=cls)
